@@ -16,6 +16,9 @@ void harness(void)
 	H_SETUP(in_size, in_used, in_refs, in_flags, in_typed);
 	for (i = 0; i < BCAP; i++) h_b0.data[i] = in_content[i];
 	h_init_fails = in_init_fails != 0; h_alloc_fails = in_alloc_fails != 0;
+#ifdef UNIT_ASLICE
+	{ IN(int, in_fail_at); V_REQ(in_fail_at >= 0 && in_fail_at <= 3); h_init_fail_at = in_fail_at; }   /* or only the n-th construction fails */
+#endif
 	oused = in_used;
 	if (in_k < BCAP) ok_ = in_content[in_k];
 	V_CHECK("setup: representation invariant holds before the call", h_elements_consistent());
